@@ -9,6 +9,6 @@ Extraction Language OCaml.
 Set Extraction KeepSingleton.
 Extraction "models_tstone.ml"
   this Qnum Qden
-  tokens pull_all tok_of F_NONE Build_flags
+  tokens pull_all tok_of F_NONE Build_flags final_allocation
   parse load_ts
   npd_lines record_of load_npd.
